@@ -124,6 +124,19 @@ def c12core (t4 : Bool) (args res : List String) (c13 : Bool := false) : Verdict
               | some i =>
                 if admissible stAtChoice piecesAtChoice tgtAtChoice (some i) then none else some "iv-asked-pick-not-admissible"
               | none => none
+            -- (v) the reply shows that the chooser answered "nothing" (C13: exactly when no eligible piece exists)
+            let notInterestedYet : Bool := ((findPeer s a).map (·.amInterested)).getD true = false
+            let revealedNone : Bool := match c with
+              | 'u' => replyIdx.isNone
+              | 'd' => reply = "Ni" || reply = "Pk"
+              | 'x' => reply = "Ni" || reply = "Pk"
+              | 'h' => reply = "Ig" && notInterestedYet
+              | 'b' => reply = "Bn"
+              | 'n' => reply = "Pk"
+              | _ => false
+            let askedBad : Option String := match askedBad with
+              | some cl => some cl
+              | none => if revealedNone ∧ ¬ noneOk then some "v-nothing-picked-although-an-eligible-piece-exists" else none
             match askedBad with
             | some cl => some (vProp cl s!"op-{c}")
             | none =>
